@@ -384,7 +384,9 @@ class CConfig:
         extra: Sequence[str] = (),
         pre_includes: Sequence[str] = (),
         lib_std: str = "",
+        be_announce: str = "BP_BIG_ENDIAN",
     ):
+        self.be_announce = be_announce  # how a big-endian host is announced (key of BE_ANNOUNCE)
         # extra: flags given to EVERY translation unit (ABI-neutral or ABI-consistent: -funsigned-char, -fshort-enums, ...)
         # pre_includes: libc headers a user's file may include before the runtime (first lines of a single TU; -include otherwise)
         # lib_std: language standard for the runtime and the generated files only (the driver needs GNU extensions)
@@ -403,7 +405,7 @@ class CConfig:
         if self.sanitize:
             f += SAN_FLAGS
         if self.big_endian:
-            f += ["-DBP_BIG_ENDIAN=1"]
+            f += BE_ANNOUNCE[self.be_announce]
         f += self.extra
         return f
 
@@ -418,7 +420,7 @@ class CConfig:
 
     def tag(self) -> str:
         more = "".join("," + x for x in self.extra) + "".join(",<" + h + ">" for h in self.pre_includes) + ("," + self.lib_std if self.lib_std else "")
-        return f"{self.cc}{self.opt}{'-san' if self.sanitize else ''}{'-be' if self.big_endian else ''}{'-1tu' if self.single_tu else ''}{'-cxx' if self.cxx_driver else ''}{more}"
+        return f"{self.cc}{self.opt}{'-san' if self.sanitize else ''}{('-be' if self.be_announce == 'BP_BIG_ENDIAN' else '-be:' + self.be_announce) if self.big_endian else ''}{'-1tu' if self.single_tu else ''}{'-cxx' if self.cxx_driver else ''}{more}"
 
     def __repr__(self) -> str:
         return self.tag()
@@ -427,6 +429,16 @@ class CConfig:
 # what a user's build may add without changing what the code means
 PRE_INCLUDES = ["stdlib.h", "time.h", "pthread.h", "sys/types.h", "signal.h", "endian.h", "sys/param.h", "sys/socket.h", "arpa/inet.h", "math.h", "limits.h", "stdio.h", "string.h"]
 ABI_NEUTRAL_FLAGS = ["-funsigned-char", "-fsigned-char", "-fshort-enums", "-fno-strict-aliasing", "-fwrapv", "-D_GNU_SOURCE", "-fstack-protector-all", "-fPIC", "-fno-common", "-D_FORTIFY_SOURCE=2", "-DNDEBUG"]
+# the documented ways a big-endian host is recognised (lib/c/bitproto.c, the generated -O file, docs/endianness.rst): the user's
+# BP_BIG_ENDIAN or what the toolchain predefines (GCC/Clang, ACLE Arm, legacy TI armcl, others, IAR)
+BE_ANNOUNCE = {
+    "BP_BIG_ENDIAN": ["-DBP_BIG_ENDIAN=1"],
+    "__BYTE_ORDER__": ["-U__BYTE_ORDER__", "-D__BYTE_ORDER__=__ORDER_BIG_ENDIAN__"],
+    "__ARM_BIG_ENDIAN": ["-D__ARM_BIG_ENDIAN=1"],
+    "__big_endian__": ["-D__big_endian__=1"],
+    "__BIG_ENDIAN__": ["-D__BIG_ENDIAN__=1"],
+    "__LITTLE_ENDIAN__==0": ["-D__LITTLE_ENDIAN__=0"],
+}
 LIB_STDS = ["", "", "", "-std=c99", "-std=c11", "-std=c17", "-std=gnu99", "-std=gnu17", "-std=c2x"]
 
 
